@@ -28,7 +28,7 @@ static const std::vector<Problem<D>> &problems() {
   return ps;
 }
 static const unsigned MASKS[4] = {0x00, 0xff, 0x11, 0x22};
-struct Model { int prob = -1; unsigned mask = 0; int tm = 0, sm = 0; bool ws = false; bool alive = false; bool fresh = false; };   // fresh: the last operation on the built-in workspace was a query at the history's evaluation vector and nothing was reconfigured since  // tm/sm: 0 default, 1 user A, 2 user B
+struct Model { int prob = -1; unsigned mask = 0; int tm = 0, sm = 0; bool ws = false; bool alive = false; bool fresh = false; int qv = 0; bool valid = true; };   // qv: which evaluation vector the fresh built-in query used (0: 1.25 + i/32, 1: 1.5 + i/16); valid: the last setInitState was accepted   // fresh: the last operation on the built-in workspace was a query at the history's evaluation vector and nothing was reconfigured since  // tm/sm: 0 default, 1 user A, 2 user B
 struct UserMaps { VTimeMap ta{0.125}, tb{0.03125}; VMap<D> sa{1, 1.5, 0.25}, sb{0, 2.0, 0.5}; };
 
 static const VTimeMap &tm_of(const UserMaps &u, int r) { static VTimeMap d; return r == 0 ? d : r == 1 ? u.ta : u.tb; }
@@ -38,6 +38,7 @@ static const VMap<D> &sm_of(const UserMaps &u, int r) { static VMap<D> d; return
 // freshly configured equivalent optimizer
 static std::string check_opt(const Opt &o, const Model &m, const UserMaps &u, const char *name, Canon &dg) {
   if (m.prob < 0) { if (o.isValid()) return std::string(name) + ": never initialised but reports valid"; return ""; }
+  if (!m.valid) { if (o.isValid() || (bool)o) return std::string(name) + ": the last setInitState was rejected but the optimizer reports valid"; return ""; }
   const Problem<D> &p = problems()[m.prob];
   const VMap<D> &sm = sm_of(u, m.sm);
   Layout L = layout_model(ORD, p.N, D, m.mask, [&](int i) { return sm.getUnconstrainedDimNoSched(i); });
@@ -47,7 +48,7 @@ static std::string check_opt(const Opt &o, const Model &m, const UserMaps &u, co
   fresh.setOptimizationFlags(flags_of(m.mask)); fresh.setEnergyWeights(0.25); fresh.setIntegralNumSteps(2); fresh.setInitState(p.T, p.P, p.t0, p.bc);
   // before the check touches the built-in workspace: right after evaluate() / checkGradients() at the history's evaluation vector the exposed
   // spline is the one that vector defines (a self-check must put the workspace back: seeded change C10-m8)
-  if (m.fresh) { Eigen::VectorXd xh(L.total), gf; for (int i = 0; i < L.total; ++i) xh(i) = 1.25 + i / 32.0; TimeCost tc2; RunCost<D> rc2 = RunCost<D>::mode(5); WS wf; (void)o.evaluate(xh, gf, tc2, rc2, &wf);
+  if (m.fresh) { Eigen::VectorXd xh(L.total), gf; for (int i = 0; i < L.total; ++i) xh(i) = m.qv ? 1.5 + i / 16.0 : 1.25 + i / 32.0; TimeCost tc2; RunCost<D> rc2 = RunCost<D>::mode(5); WS wf; (void)o.evaluate(xh, gf, tc2, rc2, &wf);
     const Sp *os = o.getOptimalSpline(); if (!os || !mat_bits_equal(os->getTrajectory().getCoefficients(), wf.spline.getTrajectory().getCoefficients()) || os->getTrajectory().getBreakpoints() != wf.spline.getTrajectory().getBreakpoints())
       return fmt("%s: after evaluate()/checkGradients() on the built-in workspace, getOptimalSpline() is not the spline defined by the queried decision vector", name); }
   // FIRST query on the built-in workspace, at the very vector the history's own evaluate() operations use: a result memoised on x must not
@@ -104,26 +105,30 @@ struct World {
   UserMaps *u; std::unique_ptr<Opt> A, B; Model ma, mb;   // user maps live on the heap: one op changes a parameter
   World() : u(new UserMaps()), A(new Opt()) { ma.alive = true; A->setEnergyWeights(0.25); A->setIntegralNumSteps(2); }
   ~World() { A.reset(); B.reset(); delete u; }
-  int nops() const { return 15; }
-  bool enabled(int op) const { if (op == 6) return ma.prob >= 0; if (op == 9 || op == 12 || op == 13) return (bool)B; if (op == 10 || op == 11) return (bool)B && ma.alive; return true; }
+  int nops() const { return 17; }
+  bool enabled(int op) const { if (op == 6) return ma.prob >= 0 && ma.valid; if (op == 15) return (bool)B && mb.prob >= 0 && mb.valid; if (op == 9 || op == 12 || op == 13) return (bool)B; if (op == 10 || op == 11) return (bool)B && ma.alive; return true; }
   std::string opname(int op) const { static const char *n[] = {"A.setInitState(p1)", "A.setInitState(p2)", "A.setTimeMap(user)", "A.setTimeMap(null)", "A.setSpatialMap(user)", "A.setSpatialMap(null)", "A.evaluate() (built-in workspace)",
-      "B = new Opt(A)", "B = A (assign; B default-made if absent)", "A = A", "delete A; A = B (ownership moves)", "swap A<->B", "B.setInitState(p3) (mutate copy)", "B.setOptimizationFlags(0xff)", "change the user maps' parameters"}; return n[op]; }
+      "B = new Opt(A)", "B = A (assign; B default-made if absent)", "A = A", "delete A; A = B (ownership moves)", "swap A<->B", "B.setInitState(p3) (mutate copy)", "B.setOptimizationFlags(0xff)", "change the user maps' parameters", "B.evaluate() at another vector (built-in workspace)", "A.setInitState(rejected: a duration below 1 ms)"}; return n[op]; }
   void apply(int op) {
     const auto &ps = problems();
-    if (op < 2) { const auto &p = ps[op + 1]; A->setInitState(p.T, p.P, p.t0, p.bc); ma.prob = op + 1; }
+    if (op <= 5 || op == 16) ma.fresh = false; if (op == 12 || op == 13) mb.fresh = false;
+    if (op == 14) { ma.fresh = false; mb.fresh = false; }   // the user maps' parameters decide what a decision vector decodes to
+    if (op == 15) { Eigen::VectorXd x = B->generateInitialGuess(), g; for (int i = 0; i < x.size(); ++i) x(i) = 1.5 + i / 16.0; TimeCost tc; RunCost<D> rc = RunCost<D>::mode(5); (void)B->evaluate(x, g, tc, rc); mb.ws = true; mb.fresh = true; mb.qv = 1; return; }
+    if (op == 16) { Problem<D> q = ps[1]; q.T[q.N - 1] = 0.0005; bool ok = A->setInitState(q.T, q.P, q.t0, q.bc); (void)ok; ma.valid = false; return; }
+    if (op < 2) { const auto &p = ps[op + 1]; A->setInitState(p.T, p.P, p.t0, p.bc); ma.prob = op + 1; ma.valid = true; }
     else if (op == 2) { A->setTimeMap(&u->ta); ma.tm = 1; } else if (op == 3) { A->setTimeMap(nullptr); ma.tm = 0; }
     else if (op == 4) { A->setSpatialMap(&u->sa); ma.sm = 1; } else if (op == 5) { A->setSpatialMap(nullptr); ma.sm = 0; }
-    else if (op == 6) { Eigen::VectorXd x = A->generateInitialGuess(), g; for (int i = 0; i < x.size(); ++i) x(i) = 1.25 + i / 32.0; TimeCost tc; RunCost<D> rc = RunCost<D>::mode(5); (void)A->evaluate(x, g, tc, rc); ma.ws = true; }
+    else if (op == 6) { Eigen::VectorXd x = A->generateInitialGuess(), g; for (int i = 0; i < x.size(); ++i) x(i) = 1.25 + i / 32.0; TimeCost tc; RunCost<D> rc = RunCost<D>::mode(5); (void)A->evaluate(x, g, tc, rc); ma.ws = true; ma.fresh = true; ma.qv = 0; }
     else if (op == 7) { B.reset(new Opt(*A)); mb = ma; }
     else if (op == 8) { if (!B) B.reset(new Opt()); *B = *A; mb = ma; }
     else if (op == 9) { Opt &r = *A; *A = r; }
     else if (op == 10) { A.reset(); A = std::move(B); ma = mb; mb = Model(); }   // the source dies; the copy must keep working
     else if (op == 11) { std::swap(A, B); std::swap(ma, mb); }
-    else if (op == 12) { const auto &p = ps[3]; B->setInitState(p.T, p.P, p.t0, p.bc); mb.prob = 3; }
+    else if (op == 12) { const auto &p = ps[3]; B->setInitState(p.T, p.P, p.t0, p.bc); mb.prob = 3; mb.valid = true; }
     else if (op == 13) { B->setOptimizationFlags(flags_of(0xff)); mb.mask = 0xff; }
     else if (op == 14) { u->ta.prm[0] = u->ta.prm[0] == 0.125 ? 0.1875 : 0.125; u->sa.prm[0] = u->sa.prm[0] == 1.5 ? 1.75 : 1.5; }
   }
-  std::string canon() const { Canon c; canon_add_opt(c, *A, true); canon_add_defaults(c, *A); c.i(ma.prob); c.i(ma.tm); c.i(ma.sm); c.i(B ? 1 : 0); if (B) { canon_add_opt(c, *B, true); canon_add_defaults(c, *B); c.i(mb.prob); c.i(mb.tm); c.i(mb.sm); } c.d(u->ta.prm[0]); return c.s; }
+  std::string canon() const { Canon c; canon_add_opt(c, *A, true); canon_add_defaults(c, *A); c.i(ma.prob); c.i(ma.tm); c.i(ma.sm); c.i(ma.fresh); c.i(ma.qv); c.i(ma.valid); c.i(B ? 1 : 0); if (B) { canon_add_opt(c, *B, true); canon_add_defaults(c, *B); c.i(mb.prob); c.i(mb.tm); c.i(mb.sm); c.i(mb.fresh); c.i(mb.qv); c.i(mb.valid); } c.d(u->ta.prm[0]); return c.s; }
   std::string roles(const Opt &o, const Model &m, const char *name, const Opt *other) const {
     const VTimeMap *wt = m.tm ? &u->ta : &o.default_time_map_; const VMap<D> *wsm = m.sm ? &u->sa : &o.default_spatial_map_;
     if (o.active_time_map_ != wt) return fmt("%s: active time map is not %s", name, m.tm ? "the user map" : "its OWN default map");
@@ -137,7 +142,7 @@ struct World {
     Canon dg; std::string m = roles(*A, ma, "A", B.get()); if (m.empty() && B) m = roles(*B, mb, "B", A.get());
     if (m.empty()) m = check_opt(*A, ma, *u, "A", dg); if (m.empty() && B) m = check_opt(*B, mb, *u, "B", dg);
     // copies stay usable through their own built-in workspace too
-    if (m.empty()) for (int k = 0; k < 2; ++k) { Opt *o = k == 0 ? A.get() : B.get(); const Model &mm = k == 0 ? ma : mb; if (!o || mm.prob < 0) continue; Eigen::VectorXd x = o->generateInitialGuess(), g; TimeCost tc; RunCost<D> rc = RunCost<D>::mode(5); double cv = o->evaluate(x, g, tc, rc); dg.d(cv); if (!o->getOptimalSpline()) m = "getOptimalSpline() null after evaluate"; }
+    if (m.empty()) for (int k = 0; k < 2; ++k) { Opt *o = k == 0 ? A.get() : B.get(); const Model &mm = k == 0 ? ma : mb; if (!o || mm.prob < 0 || !mm.valid) continue; Eigen::VectorXd x = o->generateInitialGuess(), g; TimeCost tc; RunCost<D> rc = RunCost<D>::mode(5); double cv = o->evaluate(x, g, tc, rc); dg.d(cv); if (!o->getOptimalSpline()) m = "getOptimalSpline() null after evaluate"; }
     digest = dg.s; return m;
   }
 };
